@@ -167,6 +167,7 @@ def run():
 
 INLINE_ALPHABETS = {'I1': ['a', ' ', '*', '`', '\\'], 'I2': ['a', '*', '`', '<', '>', '/'], 'I3': ['a', ':', '<', '>', '*', '`'],
                     'I4': ['a', ' ', '`', '<', '>', '\\', '_'],
+                    'I5': ['a', ':', '<', '>', '\\'],
                     # entity and numeric character references
                     'E1': ['&', '#', '3', '5', ';', 'a', 'x'], 'E2': ['&', 'a', 'm', 'p', ';', 'l', 't'], 'E3': ['&', '#', '4', '2', ';', '*'],
                     'E4': ['&', 'l', 't', ';', '`', '\\', 'a']}
